@@ -167,7 +167,7 @@ def main():
         driver = Driver()
         for sname in info['suites']:
             mod = importlib.import_module('suites.' + sname)
-            for extra in range(1, 4 if args.tier == 'quick' else 9):
+            for extra in range(1, 3 if args.tier == 'quick' else 6):
                 res = mod.run(seed * 1000 + extra, 'search' if hasattr(mod, 'SEARCH') else args.tier, driver)
                 failures += [f for f in res.failures if f['property'] == prop]
                 if failures:
